@@ -161,6 +161,7 @@ class Orig:
             self.msg = e.msg
         self._ref = None
         self._ref_problem = None
+        self.ort_ran = 0   # valuations ORT executed (whether or not the reference evaluator agreed)
 
     def _run_ref(self, feeds):
         """Reference evaluator created once per model (many bindings are run per model in C09)."""
@@ -188,6 +189,7 @@ class Orig:
             o = self.sess.run(feeds)
         except runeq.RunError:
             return None, "ort-run"
+        self.ort_ran += 1
         try:
             r = self._run_ref(feeds)
         except runeq.RunError as e:
@@ -448,18 +450,19 @@ def evaluate(built, item, binds=(None,), n_val=mz.N_VALUATIONS, api=None, opts=N
     except Exception as e:  # noqa: BLE001
         rec["raised"] = f"{type(e).__name__}: {e}"[:300]
         cls = _exc_class(e)
-        if runs:  # the model is checker-valid and executes: C04 demands totality
+        if orig.ort_ran:  # the model is checker-valid and executes: C04 demands totality
             rec["c04"].append({"kind": "raises", "component": api, "param": cls, "detail": rec["raised"]})
         else:
             cnt["raised_on_non_executing_model"] += 1
         return rec
     rec["opt"] = opt
     rec["diff"] = diff_sig(model, opt)
-    if not runs:
-        # the model does not execute (or the two runtimes disagree about it): neither property concludes anything
+    if not orig.ort_ran:
+        # the model does not execute: neither property concludes anything
         rec["skip"] = "no-admitted-run:" + ",".join(sorted(reasons))
         return rec
-    # ---- C04: validity + interface -------------------------------------------------------------------
+    # ---- C04: validity + interface (needs a checker-valid model that executes; agreement of the two runtimes is
+    # only needed for the semantic parts below) ---------------------------------------------------------------
     vp = validity_problems(opt)
     if vp:
         base = set(_classify_validity(p) for p in validity_problems(model))
@@ -483,7 +486,11 @@ def evaluate(built, item, binds=(None,), n_val=mz.N_VALUATIONS, api=None, opts=N
         elif name not in opt_inputs:
             rec["c04"].append({"kind": "default-lost", "component": api, "param": "initializer-input is no longer an input",
                                "name": name, "detail": f"{name} was an overridable graph input and is no input any more"})
+    rec["validated"] = True
     # ---- run the optimized model ------------------------------------------------------------------------
+    if not runs:
+        rec["skip"] = "no-admitted-run:" + ",".join(sorted(reasons))
+        return rec
     try:
         osess = Sess(opt)
     except runeq.RunError as e:
